@@ -179,7 +179,22 @@ fn strat_bbd(t: Tier) -> BoxedStrategy<BbdCase> {
             };
             (Just((class, data)), cents)
         })
-        .prop_map(|((class, data), (centroid_class, centroids))| BbdCase { class, data, centroids, centroid_class })
+        .prop_flat_map(|((class, data), (centroid_class, centroids))| {
+            // one case in three: the whole configuration (rows and centroids) translated by a large
+            // common offset +-2^e per coordinate.  All generated values are dyadic with <= 13
+            // fractional bits and magnitude < 2^8, so the translation is exact and every exact
+            // squared distance is unchanged; only code that forms x^2 - y^2 instead of (x - y)^2 notices.
+            let d = data[0].len();
+            (Just((class, data, centroid_class, centroids)), prop_oneof![2 => Just(None), 1 => (8i32..=27, vec(any::<bool>(), d)).prop_map(Some)])
+        })
+        .prop_map(|((class, data, centroid_class, centroids), shift)| match shift {
+            None => BbdCase { class, data, centroids, centroid_class },
+            Some((e, neg)) => {
+                let o: Vec<f64> = neg.iter().map(|n| if *n { -(2f64.powi(e)) } else { 2f64.powi(e) }).collect();
+                let tr = |p: &Pts| -> Pts { p.iter().map(|r| r.iter().zip(&o).map(|(x, s)| x + s).collect()).collect() };
+                BbdCase { class: format!("{}+offset", class), data: tr(&data), centroids: tr(&centroids), centroid_class }
+            }
+        })
         .boxed()
 }
 
@@ -193,7 +208,17 @@ pub fn check_bbd(case: &BbdCase, ctx: &mut Ctx) -> Result<(), Fail> {
     let x = DenseMatrix::from_2d_vec(&case.data);
     let r = no_panic("bbd_clustering", || verif_hooks::bbd_clustering(&x, &case.centroids))?;
     ensure!(r.membership.len() == n && r.counts.len() == k && r.sums.len() == k, "bbd/shape", "shapes");
-    let scale2 = case.data.iter().chain(case.centroids.iter()).flatten().fold(0.0f64, |m, x| m.max(x * x)).max(1e-300) * d as f64;
+    // error scale of a squared distance evaluated in difference form on translated data:
+    // |x| * (extent of the configuration) per coordinate; for untranslated data this is ~ max x^2
+    let maxabs = case.data.iter().chain(case.centroids.iter()).flatten().fold(0.0f64, |m, x| m.max(x.abs())).max(1e-300);
+    let extent = (0..d)
+        .map(|j| {
+            let (lo, hi) = case.data.iter().chain(case.centroids.iter()).fold((f64::INFINITY, f64::NEG_INFINITY), |(lo, hi), r| (lo.min(r[j]), hi.max(r[j])));
+            hi - lo
+        })
+        .fold(0.0f64, f64::max);
+    let scale2 = (maxabs * extent).max(1e-300) * d as f64;
+    ctx.label_if(maxabs > 200.0, "large-common-offset");
     let mut exhaustive = 0.0;
     let mut by_membership = 0.0;
     let mut cnt = vec![0usize; k];
@@ -219,7 +244,7 @@ pub fn check_bbd(case: &BbdCase, ctx: &mut Ctx) -> Result<(), Fail> {
     ensure!(cnt == r.counts, "bbd/counts", "counts {:?}, membership gives {:?}", r.counts, cnt);
     for c in 0..k {
         for j in 0..d {
-            ctx.bound("bbd/sums", (r.sums[c][j] - sums[c][j]).abs(), 1e-9 * scale2.sqrt() * (n as f64))?;
+            ctx.bound("bbd/sums", (r.sums[c][j] - sums[c][j]).abs(), 1e-9 * maxabs * (n as f64))?;
         }
     }
     ctx.bound("bbd/distortion-vs-membership", (r.distortion - by_membership).abs(), 1e-9 * (by_membership + scale2 * n as f64 * 1e-3))?;
